@@ -15,7 +15,7 @@ Model.Proxy — `varlink bridge` (varlink-cli/src/proxy.rs, main.rs 354-410).
                copy loops
 
 This is the code after the fix commits 723e399, 78c09f9, 86882c4, 5599eab, 035a260,
-84fe826, ac1225d, aebf686.  The world outside the bridge is a parameter: the configured
+84fe826, ac1225d, aebf686, 847b000.  The world outside the bridge is a parameter: the configured
 resolver address, the resolver's answers (indexed by the number of `Resolve` calls
 made so far, so that a changing registry can be expressed), and what
 `varlink_connect` reaches under an address (a `Service` of Model.Wire, or nothing).
@@ -156,25 +156,21 @@ def copyLoop : List Bytes → Bytes
   | [] => []
   | c :: cs => c ++ copyLoop cs
 
-/-- the upgraded hand-over (proxy.rs 152-160): `buffered` is what the client's
-    `BufReader` still holds after the upgrading request, `later` what the client
-    sends afterwards (as a read schedule); `svcOut` maps the bytes the upgraded
-    service receives to the bytes it sends.  `readAhead`: how many of the service's
-    bytes the bridge had already read, together with the reply to the upgrading
-    call, into the `BufReader` it uses for that reply — that reader is dropped at the
-    hand-over, and those bytes with it. -/
+/-- the upgraded hand-over (proxy.rs): `buffered` is what the client's `BufReader`
+    still holds after the upgrading request, `later` what the client sends
+    afterwards (as a read schedule); `svcOut` maps the bytes the upgraded service
+    receives to the bytes it sends — including what it sends before it has
+    received anything (a service that speaks first).  What the bridge had already
+    read of that, together with the reply to the upgrading call, is written to the
+    client before the pump starts (847b000), so nothing of `svcOut` is lost. -/
 structure Pumped where
   toService : Bytes
   toClient : Bytes
 deriving Repr, DecidableEq
 
-def upgradedPump (svcOut : Bytes → Bytes) (buffered : Bytes) (later : List Bytes) (readAhead : Nat := 0) : Pumped :=
+def upgradedPump (svcOut : Bytes → Bytes) (buffered : Bytes) (later : List Bytes) : Pumped :=
   let ts := buffered ++ copyLoop later      -- `service_writer.write_all(client_bufreader.buffer())`, then the copy loop
-  { toService := ts, toClient := (svcOut ts).drop readAhead }
-
-/-- the `BufReader` the bridge reads the reply through holds 8 KiB: of a service that writes `early`
-    bytes in one go with its reply (`replyLen` bytes incl. the NUL), this many are read ahead -/
-def readAheadOf (replyLen early : Nat) : Nat := min early (8192 - replyLen)
+  { toService := ts, toClient := svcOut ts }
 
 /-- `proxy::handle_connect`: `clientReads` / `svcSched` are the read schedules of the
     two copy loops over the complete streams (whether the connection has a child process
